@@ -71,8 +71,9 @@ def discrete_quadrature(rng, out, thorough):
     for succ in (False, True):
         for std in (0.7, 2.0, 4.5):
             cfgs.append(('discrete', succ, std, None, rng.randint(-2, 2)))
-            for (lo, hi) in ((0, 3), (-4, 5), (1, 9)):
-                for mu in sorted({lo, hi, rng.randint(lo, hi)}):
+            for (lo, hi) in ((0, 3), (-4, 5), (1, 9), (0.5, 7.5)):
+                ilo, ihi = int(math.floor(lo)), int(math.ceil(hi))
+                for mu in sorted({ilo, ihi, rng.randint(ilo, ihi)}):
                     cfgs.append(('bounded_discrete', succ, std, (lo, hi), mu))
     rng.shuffle(cfgs)
     for fam, succ, std, bnd, mu in cfgs[:(len(cfgs) if thorough else 14)]:
